@@ -155,10 +155,11 @@ Record shared (env : Type) := {
   s_env : env;                 (* md_env as markdown-it reads/writes it (reference definitions ...) *)
   s_names : list str;          (* keys of document.nameids *)
   s_footrefs : list str;       (* note_footnote_ref / note_autofootnote_ref *)
+  s_footdefs : list str;       (* names of document.footnotes + document.autofootnotes *)
   s_subrefs : list str;        (* document.sub_references *)
   s_incl : list str }.         (* md_env["include_log"] after its first entry (the document itself) *)
 Arguments s_env {env}. Arguments s_names {env}. Arguments s_footrefs {env}. Arguments s_subrefs {env}.
-Arguments s_incl {env}.
+Arguments s_incl {env}. Arguments s_footdefs {env}.
 
 (* docutils' admonition directives only act through the state object they are given *)
 Record callbacks (S : Type) := {
@@ -212,19 +213,22 @@ Section Nest.
   Local Notation shared := (shared env).
 
   Definition set_env (e : env) (h : shared) : shared :=
-    {| s_env := e; s_names := s_names h; s_footrefs := s_footrefs h; s_subrefs := s_subrefs h;
-       s_incl := s_incl h |}.
+    {| s_env := e; s_names := s_names h; s_footrefs := s_footrefs h; s_footdefs := s_footdefs h;
+       s_subrefs := s_subrefs h; s_incl := s_incl h |}.
   Definition add_name (n : str) (h : shared) : shared :=
     {| s_env := s_env h; s_names := s_names h ++ [n]; s_footrefs := s_footrefs h;
-       s_subrefs := s_subrefs h; s_incl := s_incl h |}.
+       s_footdefs := s_footdefs h; s_subrefs := s_subrefs h; s_incl := s_incl h |}.
   Definition add_footref (n : str) (h : shared) : shared :=
     {| s_env := s_env h; s_names := s_names h; s_footrefs := s_footrefs h ++ [n];
-       s_subrefs := s_subrefs h; s_incl := s_incl h |}.
-  Definition set_subrefs (l : list str) (h : shared) : shared :=
-    {| s_env := s_env h; s_names := s_names h; s_footrefs := s_footrefs h; s_subrefs := l;
-       s_incl := s_incl h |}.
-  Definition set_incl (l : list str) (h : shared) : shared :=
+       s_footdefs := s_footdefs h; s_subrefs := s_subrefs h; s_incl := s_incl h |}.
+  Definition add_footdef (n : str) (h : shared) : shared :=
     {| s_env := s_env h; s_names := s_names h; s_footrefs := s_footrefs h;
+       s_footdefs := s_footdefs h ++ [n]; s_subrefs := s_subrefs h; s_incl := s_incl h |}.
+  Definition set_subrefs (l : list str) (h : shared) : shared :=
+    {| s_env := s_env h; s_names := s_names h; s_footrefs := s_footrefs h; s_footdefs := s_footdefs h;
+       s_subrefs := l; s_incl := s_incl h |}.
+  Definition set_incl (l : list str) (h : shared) : shared :=
+    {| s_env := s_env h; s_names := s_names h; s_footrefs := s_footrefs h; s_footdefs := s_footdefs h;
        s_subrefs := s_subrefs h; s_incl := l |}.
 
   (* BaseAdmonition.run as it reads in docutils/parsers/rst/directives/admonitions.py *)
@@ -345,7 +349,8 @@ Section Nest.
       let toks := map (shift_tok lineno) (drop_front_matter toks0) in
       (* _restore() *)
       let current_heading_offset := hoff s1 in
-      let s2 := set_hoff heading_offset s1 in
+      (* offsets accumulate (94acff7) *)
+      let s2 := set_hoff (current_heading_offset + heading_offset) s1 in
       let current_level_to_section := lmap s2 in
       let current_root_node := troot s2 in
       let s3 := match temp_root_node with Some _ => set_troot temp_root_node s2 | None => s2 end in
@@ -512,10 +517,14 @@ Section Nest.
           let '(msgs, h) := note_explicit_target label (token_line_d mp 0) (shr s) in
           extend_cur (set_shr h s) (msgs ++ [Node NTarget label (line_of mp) []])
       | TFootDef label mp ks =>
-          if mem_strs label (s_names (shr s)) then
+          (* a duplicate only of another footnote definition (21b92da) *)
+          if mem_strs label (s_footdefs (shr s)) then
             extend_cur s [sysmsg label (token_line_d mp 0)]      (* Duplicate footnote definition *)
           else
-            with_node (set_shr (add_name label (shr s)) s) (Node NFootnote label (line_of mp) [])
+            (* note_(auto)footnote; note_explicit_target(footnote, footnote): a name that is already a
+               target / heading puts docutils' message into the footnote itself *)
+            let '(msgs, h) := note_explicit_target label (token_line_d mp 0) (add_footdef label (shr s)) in
+            with_node (set_shr h s) (Node NFootnote label (line_of mp) msgs)
                       (fun s => render_children s ks)
       | TFootRef label mp =>
           extend_cur (set_shr (add_footref label (shr s)) s) [Node NFootRef label (line_of mp) []]
@@ -535,7 +544,7 @@ Section Nest.
     render_tokens_ (render_tok f) s ts.
 
   Definition sh0 (e : env) : shared :=
-    {| s_env := e; s_names := []; s_footrefs := []; s_subrefs := []; s_incl := [] |}.
+    {| s_env := e; s_names := []; s_footrefs := []; s_footdefs := []; s_subrefs := []; s_incl := [] |}.
 
   Definition st0 (h : shared) : st :=
     {| roots := [Node NDoc [] None []]; cur := (O, []); lmap := [(0, (O, []))];
@@ -575,22 +584,22 @@ Section Nest.
       den_fold (rec top ho) h ks.
 
     (* nested_render_text(text, lineno, inline, heading_offset) into a node of kind [top] *)
-    Definition den_nested (top : bool) (h : shared) (text : str) (lineno : N) (inline : bool)
+    Definition den_nested (top : bool) (ho : N) (h : shared) (text : str) (lineno : N) (inline : bool)
         (heading_offset : N) : res dres :=
       let '(toks0, e') := if inline then PI (s_env h) text else P (s_env h) (text ++ nl) in
-      den_fold (rec top heading_offset) (set_env e' h)
+      den_fold (rec top (ho + heading_offset)) (set_env e' h)
                (map (shift_tok 1) (map (shift_tok lineno) (drop_front_matter toks0))).
 
-    Definition den_mock_state (lineno : N) : callbacks shared :=
+    Definition den_mock_state (ho : N) (lineno : N) : callbacks shared :=
       {| cb_nested_parse := fun (block : list str) (input_offset : nat) (n : node) (h : shared) =>
-           do r <- den_nested false h (join nl block) (lineno + N.of_nat input_offset) false 0;
+           do r <- den_nested false ho h (join nl block) (lineno + N.of_nat input_offset) false 0;
            Ok (add_kids n (fst (fst r)), snd (fst r));
          cb_inline_text := fun (text : str) (ln : N) (h : shared) =>
-           do r <- den_nested false h text ln true 0;
+           do r <- den_nested false ho h text ln true 0;
            Ok (fst (fst r), snd (fst r)) |}.
 
     (* (what run() returns, nodes appended directly to the current node, registries, flag) *)
-    Definition den_include (top : bool) (h : shared) (p : parsed)
+    Definition den_include (top : bool) (ho : N) (h : shared) (p : parsed)
       : res (dout * list node * shared * bool) :=
       match p_args p with
       | [] => Raise IndexError
@@ -604,13 +613,13 @@ Section Nest.
               else if mem_str a (o_source orc :: s_incl h) then Ok (DError 2 a, [], h, false)
               else
                 (* the included text is rendered into the *current* node *)
-                do x <- den_nested top (set_incl (s_incl h ++ [a]) h) file_content (0 + 1) false iho;
+                do x <- den_nested top ho (set_incl (s_incl h ++ [a]) h) file_content (0 + 1) false iho;
                 Ok (DNodes [], fst (fst x),
                     set_incl (removelast (s_incl (snd (fst x)))) (snd (fst x)), snd x)
           end
       end.
 
-    Definition den_directive (top : bool) (h : shared) (name first_line content : str)
+    Definition den_directive (top : bool) (ho : N) (h : shared) (name first_line content : str)
         (position : N) (prepended : nat) : res dres :=
       match dir_lookup name with
       | None => Ok ([sysmsg name position], h, false)
@@ -623,10 +632,10 @@ Section Nest.
               do r <-
                 match kind with
                 | KAdm titled =>
-                    do x <- adm_run shared (den_mock_state position) titled name (p_args p) attrs
+                    do x <- adm_run shared (den_mock_state ho position) titled name (p_args p) attrs
                               (p_body p) (p_off p - prepended)%nat position h;
                     Ok (fst x, [], snd x, false)
-                | KInclude => den_include top h p
+                | KInclude => den_include top ho h p
                 | KOther =>
                     let '(ns, h') := other_directive name (p_args p) (p_optblock p) (p_body p)
                                        (p_off p - prepended)%nat position h in
@@ -640,7 +649,7 @@ Section Nest.
           end
       end.
 
-    Definition den_fence (top : bool) (h : shared) (colon : bool) (info content : str) (mp : omap)
+    Definition den_fence (top : bool) (ho : N) (h : shared) (colon : bool) (info content : str) (mp : omap)
       : res dres :=
       let '(name, arguments) := parse_info info in
       match directive_name name with
@@ -652,15 +661,15 @@ Section Nest.
             let content' := if colon && startswith content colons3 then nl ++ content
                             else content in
             do position <- token_line mp;
-            den_directive top h dn arguments content' position (prepended_lines colon content)
+            den_directive top ho h dn arguments content' position (prepended_lines colon content)
       | None =>
           if colon then
-            do r <- den_nested false h content (token_line_d mp 0) false 0;
+            do r <- den_nested false ho h content (token_line_d mp 0) false 0;
             Ok (wrap1 (Node NDiv name (line_of mp) []) r)
           else Ok ([Node NLiteral (info ++ nl ++ content) (line_of mp) []], h, false)
       end.
 
-    Definition den_substitution (top : bool) (h : shared) (inline : bool) (key : str) (mp : omap)
+    Definition den_substitution (top : bool) (ho : N) (h : shared) (inline : bool) (key : str) (mp : omap)
       : res dres :=
       do position <- token_line mp;
       match jinja key with
@@ -671,7 +680,7 @@ Section Nest.
             Ok ([sysmsg key position], h, false)
           else
             let h1 := set_subrefs (add_all references (s_subrefs h)) h in
-            do r <- den_nested top h1 rendered position
+            do r <- den_nested top ho h1 rendered position
                       (inline && negb (is_directive_start rendered)) 0;
             Ok (fst (fst r),
                 set_subrefs (remove_all references (s_subrefs (snd (fst r)))) (snd (fst r)),
@@ -694,13 +703,14 @@ Section Nest.
           let '(msgs, h') := note_explicit_target label (token_line_d mp 0) h in
           Ok (msgs ++ [Node NTarget label (line_of mp) []], h', false)
       | TFootDef label mp ks =>
-          if mem_strs label (s_names h) then Ok ([sysmsg label (token_line_d mp 0)], h, false)
+          if mem_strs label (s_footdefs h) then Ok ([sysmsg label (token_line_d mp 0)], h, false)
           else
-            do r <- den_children false ho (add_name label h) ks;
-            Ok (wrap1 (Node NFootnote label (line_of mp) []) r)
+            let '(msgs, h1) := note_explicit_target label (token_line_d mp 0) (add_footdef label h) in
+            do r <- den_children false ho h1 ks;
+            Ok (wrap1 (Node NFootnote label (line_of mp) msgs) r)
       | TFootRef label mp => Ok ([Node NFootRef label (line_of mp) []], add_footref label h, false)
-      | TFence colon info content mp => den_fence top h colon info content mp
-      | TSubst inline key mp => den_substitution top h inline key mp
+      | TFence colon info content mp => den_fence top ho h colon info content mp
+      | TSubst inline key mp => den_substitution top ho h inline key mp
       | TFrontMatter c mp => Ok ([Node (NGen 0) c (line_of mp) []], h, false)
       end.
   End DStep.
@@ -723,7 +733,7 @@ End Nest.
 
 Arguments set_roots {env}. Arguments set_cur {env}. Arguments set_lmap {env}.
 Arguments set_hoff {env}. Arguments set_troot {env}. Arguments set_shr {env}.
-Arguments set_env {env}. Arguments add_name {env}. Arguments add_footref {env}.
+Arguments set_env {env}. Arguments add_name {env}. Arguments add_footref {env}. Arguments add_footdef {env}.
 Arguments set_subrefs {env}. Arguments set_incl {env}. Arguments roots {env}. Arguments cur {env}. Arguments lmap {env}.
 Arguments hoff {env}. Arguments troot {env}. Arguments shr {env}.
 Arguments extend_cur {env}. Arguments with_node {env}. Arguments with_detached {env}.
